@@ -275,3 +275,48 @@ def h7(ctx):
 
 
 RULES.append(h7)
+
+
+@rule("H8", doc="b[x := t] compares fresh handles: everything pattern_subst returns was produced by this very call (add / the substitution method / the caller's substitution), never read back from e-graph state; id-carrying state census (C13.T8)")
+def h8(ctx):
+    crate = ctx.lib()
+    ps = crate.free_fn("pattern_subst")
+    if len(ps) != 1:
+        raise mir.AnchorMissing("pattern_subst")
+    p = mir.inline_view(crate, ps[0], keep=("pattern_subst", "do_term_subst", "add_syn", "add"))
+    n = 0
+    for d in p.defs().get(0, []):
+        n += 1
+        r = p.role_of_rvalue(d["rv"]) if d["kind"] == "assign" else ("call", d["call"].callee.name if d["call"].callee else "?", "", [p.role_of_operand(a) for a in d["call"].args], d["bb"])
+        srcs = set()
+        bad = []
+
+        def classify(x, top=True):
+            x = strip_role(x)
+            if not isinstance(x, tuple):
+                return
+            if x[0] == "phi":
+                for y in x[1]:
+                    classify(y)
+            elif x[0] == "call" and x[1] in ("add_syn", "add", "subst", "pattern_subst"):
+                srcs.add(x[1])
+            elif x[0] == "call" and x[1] in ("unwrap_or_else", "unwrap", "expect", "get", "index") and x[3]:
+                # lookup in the caller's substitution
+                if role_mentions_param(x, "subst") and not role_mentions_param(x, "eg"):
+                    srcs.add("subst[?v]")
+                else:
+                    bad.append(role_str(x)[:80])
+            elif x[0] in ("variant", "field"):
+                classify(x[1])
+            else:
+                bad.append(role_str(x)[:80])
+        classify(r)
+        ctx.check(not bad, "fresh-handles:%d" % d["bb"], "pattern_subst returns %s" % sorted(srcs),
+                  "pattern_subst can return %s — a handle that was not produced by this call (e.g. read back from a memo in the e-graph). `b[x := t]` finds the occurrences of x by comparing handles with ==, and a handle stored before a later union names a deprecated class: the substitution silently does nothing and the rule unites b[x := t] with b" % bad,
+                  where_of(p, d["bb"], d.get("line")))
+    ctx.floor("return definitions of pattern_subst", n, 2)
+    from . import c13
+    c13.t8(ctx)
+
+
+RULES.append(h8)
